@@ -495,9 +495,58 @@ def main(argv):
         return finish(ctx, mod, proof, corr, t0)
 
 
+def source_changes():
+    """compare the library sources with the copies the model was last validated against (reference/src, gz).
+    Returns (changed_files, code_points, numbers): literals that occur in the changed/added lines.  A change is NOT a
+    violation; it makes the check search harder (thorough volumes even in the quick tier) and steers the search
+    towards the constants the change introduced."""
+    import difflib
+    import gzip
+    ref_root = os.path.join(VERIF, 'reference', 'src')
+    changed, cps, nums = [], set(), set()
+    for root, _, files in os.walk(ref_root):
+        for fn in files:
+            if not fn.endswith('.gz'):
+                continue
+            rel = os.path.relpath(os.path.join(root, fn), ref_root)[:-3]
+            cur = os.path.join(REPO, rel)
+            old = gzip.open(os.path.join(root, fn), 'rt', encoding='utf-8').read().splitlines()
+            new = open(cur, encoding='utf-8').read().splitlines() if os.path.exists(cur) else []
+            if old == new:
+                continue
+            changed.append(rel)
+            for line in difflib.unified_diff(old, new, lineterm='', n=0):
+                if not (line.startswith('+') or line.startswith('-')) or line.startswith('+++') or line.startswith('---'):
+                    continue
+                code = line[1:].split('//')[0]
+                for m in re.finditer(r'0x([0-9A-Fa-f_]+)', code):
+                    v = int(m.group(1).replace('_', ''), 16)
+                    (cps if v < 0x110000 else nums).add(v)
+                    nums.add(v)
+                for m in re.finditer(r"\\u\{([0-9A-Fa-f]+)\}", code):
+                    cps.add(int(m.group(1), 16))
+                for m in re.finditer(r"'([^'\\])'", code):
+                    cps.add(ord(m.group(1)))
+                for m in re.finditer(r'(?<![\w.])(\d{1,7})(?![\w.])', code):
+                    nums.add(int(m.group(1)))
+    # new source files are changes too
+    cp2 = set()
+    for c in cps:
+        for d in (-1, 0, 1):
+            if 0 <= c + d < 0x110000 and not (0xD800 <= c + d <= 0xDFFF):
+                cp2.add(c + d)
+    return sorted(changed), sorted(cp2), sorted(n for n in nums if 0 < n <= 100000)
+
+
 class Ctx:
     def __init__(self, pid, tier, seed, core_out, prof_out):
         self.pid = pid
+        self.requested_tier = tier
+        self.changed_files, self.extra_cps, self.extra_nums = source_changes()
+        prop_files = PROP_FILES.get(pid, [])
+        self.escalated = [f for f in self.changed_files if any(f == pf or f.startswith(pf.rstrip('/') + '/') for pf in prop_files)] if prop_files else list(self.changed_files)
+        if self.escalated and tier == 'quick':
+            tier = 'thorough'
         self.tier = tier
         self.seed = seed
         self.rng = random.Random(seed)
@@ -524,6 +573,20 @@ class Corr:
 
     def count(self, key, n=1):
         self.histogram[key] = self.histogram.get(key, 0) + n
+
+
+def load_prop_files():
+    d = {}
+    try:
+        for l in open(os.path.join(VERIF, 'properties.jsonl')):
+            p = json.loads(l)
+            d[p['id']] = [f for f in p['anchors']['files'] if f.endswith('.rs') or f.endswith('.template')] + ['precis-tools/src/generators/codepoints.template']
+    except OSError:
+        pass
+    return d
+
+
+PROP_FILES = load_prop_files()
 
 
 def finish(ctx, mod, proof, corr, t0, already_reported=False):
@@ -579,6 +642,9 @@ def finish(ctx, mod, proof, corr, t0, already_reported=False):
     }
     if 'leanchecker' in proof:
         cov['leanchecker'] = proof['leanchecker']
+    cov['source_changed_since_model_validation'] = ctx.changed_files
+    if ctx.escalated:
+        cov['escalated'] = {'reason': 'source files of this property differ from the copies the model was validated against: thorough case volumes used and the literals of the changed lines added to the alphabets / lengths', 'files': ctx.escalated, 'extra_code_points': [f'{c:04X}' for c in ctx.extra_cps[:40]], 'extra_numbers': ctx.extra_nums[:20]}
     if corr is not None:
         cov.update({
             'evaluations': corr.evaluations,
@@ -594,7 +660,7 @@ def finish(ctx, mod, proof, corr, t0, already_reported=False):
         cov.update(corr.extra)
     ev = {
         'property_id': pid,
-        'tier': ctx.tier if ctx.tier in ('quick', 'thorough') else 'quick',
+        'tier': ctx.requested_tier if ctx.requested_tier in ('quick', 'thorough') else 'quick',
         'seed': ctx.seed,
         'level': 'proof',
         'coverage': cov,
